@@ -223,6 +223,12 @@ class QuicConn:
         self.odcid = rbytes(rnd, sp["dcid_len"])
         self.c_scid = rbytes(rnd, sp["c_scid_len"])
         self.s_scid = rbytes(rnd, sp["s_scid_len"])
+        if sp.get("share_cids"):
+            # endpoints choose their connection IDs independently of one another: connections with the same share_cids value (and
+            # lengths) happen to use the same source connection IDs (the original DCID, and with it the Initial keys, stay their own)
+            r2 = random.Random(sp["share_cids"])
+            self.c_scid = rbytes(r2, sp["c_scid_len"])
+            self.s_scid = rbytes(r2, sp["s_scid_len"])
         self.cr = rbytes(rnd, 32)
         self.offered = list(sp["offered"] or [suite])
         self.excluded = 0
@@ -532,6 +538,22 @@ class QuicConn:
                     fd[5] = True          # LEN-less frames are only legal as the last frame
                 if fd[0] == "dgram" and not fd[2] and i != nfr - 1:
                     fd[2] = True
+                if fd[0] == "nst":
+                    # a well-formed post-handshake message (NewSessionTicket) at the right offset of the sender's 1-RTT CRYPTO stream,
+                    # whole or in two frames; only servers send them
+                    if not d:
+                        fd = ["ping"]
+                    else:
+                        msg = hs(4, rbytes(rnd, fd[1]))
+                        off = self.app_crypto_off = getattr(self, "app_crypto_off", 0)
+                        cutp = fd[2] % len(msg) if len(fd) > 2 and fd[2] else 0
+                        parts_ = [(off, msg)] if not cutp else [(off, msg[:cutp]), (off + cutp, msg[cutp:])]
+                        for o_, m_ in parts_:
+                            body += f_crypto(o_, m_, fd[3] if len(fd) > 3 else None)
+                            pparts.append(("c", m_))
+                        self.app_crypto_off = off + len(msg)
+                        self.features.add("post_handshake_message")
+                        continue
                 b, truth = encode_frame(fd, rnd)
                 body += b
                 if fd[0] == "crypto":
